@@ -196,7 +196,9 @@ def build_cases(tier, wd):
                  "<msup><mrow><mo>(</mo><mi>x</mi><mo>+</mo><mi>y</mi><mo>)</mo></mrow><mn>2</mn></msup>", "<msub><mfrac><mi>x</mi><mi>y</mi></mfrac><mn>5</mn></msub>",
                  # fences, bare and carrying a script or a limit (6ce108d, abaf8db), and scripts that are all 'none' (bfa1c9a)
                  "<mo>(</mo>", "<mo>)</mo>", "<mo>[</mo>", "<msub><mo>[</mo><mn>3</mn></msub>", "<munder><mo>‖</mo><mn>8</mn></munder>", "<msup><mo>)</mo><mn>2</mn></msup>",
-                 "<mmultiscripts><mi>n</mi><none/><none/></mmultiscripts>", "<mmultiscripts><mi>n</mi><none/><mrow/></mmultiscripts>"]
+                 "<mmultiscripts><mi>n</mi><none/><none/></mmultiscripts>", "<mmultiscripts><mi>n</mi><none/><mrow/></mmultiscripts>",
+                 # identifiers / text whose characters are brackets (the state-of-matter split '(g)' -> ( g ) must not leave an empty token)
+                 "<mi>()</mi>", "<mtext>()</mtext>", "<mi>(g)</mi>", "<mi>[]</mi>", "<mtext>(</mtext>", "<mi>)(</mi>"]
     followers = ["", "<mi>z</mi>", "<mo>+</mo><mi>z</mi>", "<mfrac><mn>1</mn><mn>2</mn></mfrac>", "<msup><mi>x</mi><mn>2</mn></msup>",
                  "<mrow><mi>p</mi><mo>+</mo><mi>q</mi></mrow>", "<msqrt><mi>y</mi></msqrt>", "<mfenced><mi>u</mi><mi>v</mi></mfenced>"]
     leaders = ["", "<mn>3</mn><mo>+</mo>", "<mi>k</mi>"]
